@@ -102,3 +102,36 @@ def call(app, path, method='GET', query='', headers=None, body=b'', environ=None
         except Exception:
             res.code = None
     return res
+
+
+
+class _FakeServer(object):
+    ssl_context = None
+    multithread = False
+    multiprocess = False
+    server_address = ('localhost', 80)
+    shutdown_signal = False
+
+
+def dev_server_environ(raw_path, method, query='', absolute_form=False, headers=None):
+    """The environ clastic's own development server builds (clastic/_werkzeug_serving.py, its request handler's
+    make_environ) for the request line `<method> <percent-encoded path>[?query] HTTP/1.1`."""
+    import io
+    import http.client
+    from urllib.parse import quote
+    from clastic._werkzeug_serving import WSGIRequestHandler
+    hd = WSGIRequestHandler.__new__(WSGIRequestHandler)
+    hd.server = _FakeServer()
+    hd.command = method
+    hd.request_version = 'HTTP/1.1'
+    hd.client_address = ('127.0.0.1', 50000)
+    hd.rfile = io.BytesIO(b'')
+    hd.headers = http.client.HTTPMessage()
+    hd.headers['Host'] = 'localhost'
+    for k, v in (headers or {}).items():
+        hd.headers[k] = v
+    target = quote(raw_path.encode('utf-8'), safe='/+') + ('?' + query if query else '')
+    hd.path = ('http://localhost' + target) if absolute_form else target
+    env = hd.make_environ()
+    env.setdefault('wsgi.errors', io.StringIO())
+    return env
